@@ -18,10 +18,11 @@ LEVEL = {
  'C12': ("proof", "Every EntityComponentStore method is proved against the abstract map view (whole-view postconditions, store invariant preserved) and every component handler against behaviours taken from the property statement.", "§10 C12"),
  'C13': ("proof", "Subscribe/Unsubscribe/UnsubscribeByParticipant/Notify (higher-order: callback called exactly once iff somebody subscribes, with a complete duplicate-free id list) and BroadcastTo (exactly once to each named member, never the sender) are proved; handlers relay only when the declared condition holds.", "§10 C13"),
  'C14': ("proof", "HandleCustomMessage behaviours (size limit exact, same body slice, sender id stamped, targeted vs untargeted) and BroadcastTo/GetParticipantsByIDs/Broadcast delivery contracts are proved.", "§10 C14"),
+ 'C15': ("proof", "The handshake closure returns nil exactly when VerifyUserAuth accepts the token extracted from the request, and the HTTP middleware calls the wrapped handler exactly once in that case and otherwise answers 401 and calls nothing (both proved on the real closures, token validation itself assumed); a structural check of cmd.main's SSA confirms the relay server and /smoke-test are mounted behind them.", "§10 C15"),
  'C16': ("proof", "vikja: the action store is proved against the (entity, name) -> action view; handleSetEntityAction behaviours are taken from the property (older than stored: refused, unchanged, no relay; otherwise replaced and relayed once; missing fields / unknown entity refused). odal: at most one instance per entity by construction of the view, fresh monotone instance ids, owner only. Joiner snapshots enumerate exactly the stored sets; entity deletion and departure cascade.", "§10 C16"),
  'C17': ("proof", "Every relay in every handler behaviour is a conditional event guarded by exactly its own flag; the obligations are proved with the flag set an arbitrary map, i.e. for all 1024 subsets and any unknown names at once.", "§10 C17"),
  'C18': ("proof", "HandleSignedLatency starts a measurement only for a joined participant, 3..50 rounds, non-empty wallet; OnPing behaviours from the property (unknown or already answered id: refused, nothing changes; otherwise exactly one further ping or exactly one response); the response's Signature is hex(Sign(Keccak(Data), key)) of exactly the Data field; Data is the marshaled LatencyData naming client, session UUID, wallet, exactly the issued ping ids; statistics: min <= max, every round within [min,max], last = final round, p95 within.", "§10 C18"),
- 'C19': ("proof", "HandleReceipt behaviours (empty field, accepted = exactly one enqueue of the unchanged payload and one response, queue full) are proved; the non-blocking select is modelled as a ready/not-ready choice.", "§10 C19"),
+ 'C19': ("proof", "HandleReceipt behaviours (empty field, accepted = exactly one enqueue of the unchanged payload and one response, queue full) are proved; the non-blocking select is modelled as a ready/not-ready choice; VerifyPayload returns nil exactly for well-formed payloads; the receipts worker forwards each dequeued payload exactly once iff it is well formed, unchanged; ForwardToNCS posts it once.", "§10 C19"),
 }
 NOTE = "Assumed contracts of dependencies (protobuf decode/encode, errors, sync, time, uuid, fmt), sequential handler-atomic histories (A-seq), trusted clauses and the assumptions listed in the evidence file; soundness of hvc, go/ssa and the SMT solvers."
 
